@@ -112,13 +112,16 @@ impl AccessStructure {
         after: Option<&str>,
     ) -> Result<(), Error> {
         let id = self.next_attribute_id;
+        let next_attribute_id = id.checked_add(1).ok_or_else(|| {
+            Error::OperationNotPermitted("no attribute ID left in this access structure".to_string())
+        })?;
 
         self.dimensions
             .get_mut(&attribute.dimension)
             .ok_or_else(|| Error::DimensionNotFound(attribute.dimension.clone()))?
             .add_attribute(attribute.name, encryption_hint, after, id)?;
 
-        self.next_attribute_id += 1;
+        self.next_attribute_id = next_attribute_id;
 
         Ok(())
     }
@@ -408,14 +411,19 @@ mod serialization {
                 .collect::<Result<HashMap<_, _>, Error>>()?;
             // V1 structures did not store the next ID: use the first one that
             // is greater than all the IDs in use.
-            let next_attribute_id = next_attribute_id.unwrap_or_else(|| {
-                dimensions
+            let next_attribute_id = match next_attribute_id {
+                Some(id) => id,
+                None => dimensions
                     .values()
                     .flat_map(Dimension::attributes)
-                    .map(|a| a.get_id() + 1)
-                    .max()
-                    .unwrap_or_default()
-            });
+                    .map(|a| a.get_id().checked_add(1))
+                    .try_fold(0, |max, id| id.map(|id| max.max(id)))
+                    .ok_or_else(|| {
+                        Error::ConversionFailed(
+                            "attribute ID too large in a V1 access structure".to_string(),
+                        )
+                    })?,
+            };
             Ok(Self {
                 version: Version::V2,
                 next_attribute_id,
